@@ -282,6 +282,7 @@ static Plan gen_c07(uint64_t seed, const std::string &tier) {
         for (int i = 0; i < n; i++) {
             std::string c = gen_chain(r, p.world, 1);
             while (!c.empty() && c.back() == ';') c.pop_back();
+            if (r.chance(1, 8) && !c.empty()) c = (r.chance(1, 2) ? ":" : "::") + c;   // an element without a name: whatever follows the colon is its argument, never a filter
             els.push_back(c);
         }
     }
@@ -479,7 +480,11 @@ static Plan gen_c12(uint64_t seed, const std::string &tier) {
     static const char *fm[] = {"%Y-%m-%d", "%s", "%H:%M:%S %Z", "%FT%T%z", "%a %b %e %j", "%G-W%V-%u", "%y%m%d%H%M%S", "%c", "%D %R"};
     tags.push_back(std::string("datetime:") + fm[r.below(9)]);
     for (int k = 0; k < 3; k++) tags.push_back("env:" + (w.env.empty() || r.chance(1, 3) ? "UNSET" + std::to_string(k) : w.env[r.below(w.env.size())].substr(0, w.env[0].find('='))));
-    for (auto c : {"0", "1", "12", "cpu", "pids", "name=systemd", "nosuch"}) if (r.chance(1, 2)) tags.push_back(std::string("cgroup:") + c);
+    for (auto c : {"0", "1", "12", "cpu", "pids", "name=systemd", "nosuch", "cpuset", "net_cls", "4"}) if (r.chance(1, 2)) tags.push_back(std::string("cgroup:") + c);
+    if (r.chance(1, 3) && !w.procs.empty()) {   // co-mounted controllers in the orders distributions use: the wanted name may follow one that contains it
+        static const char *co[] = {"4:cpuacct,cpu:/user.slice", "4:cpu,cpuacct:/user.slice", "7:net_prio,net_cls:/", "9:xcpu,cpu,cpuset:/x", "3:cpuset:/", "6:cpuset2,cpusetx:/y"};
+        for (int k = 0; k < 3; k++) w.procs[0].cgroup.insert(w.procs[0].cgroup.begin() + (long)r.below(w.procs[0].cgroup.size() + 1), co[r.below(6)]);
+    }
     // two halves so that each config line stays well below the parser's line limit
     for (int half = 0; half < 2; half++) {
         std::string f;
@@ -597,6 +602,11 @@ static Plan gen_c08(uint64_t seed, const std::string &tier) {
         std::string opt = opts[r.below(9)];
         if (r.chance(1, 10)) opt = r.chance(1, 2) ? "unknown_option" : "Message_Format";
         std::string v = c08_value(r, opt, w, roundtrip);
+        if (!roundtrip && (opt == "message_format" || opt == "syslog_ident") && r.chance(1, 6)) {   // bytes >= 0x80 are text like any other: at the ends of a value, in front of a ';'
+            static const char *hi[] = {"\xc2\xbb", "\xc3\xa9", "\xe2\x82\xac", "\xff", "\x80"};
+            switch (r.below(4)) { case 0: v = std::string(hi[r.below(5)]) + " " + v; break; case 1: v = v + " " + hi[r.below(5)]; break; case 2: v = v + hi[r.below(5)] + ";tail"; break; default: v = std::string(hi[r.below(5)]) + v + hi[r.below(5)]; }
+        }
+        if (r.chance(1, 12)) f += std::string(r.chance(1, 2) ? "\xc3\xbc" : "\xe9") + "berfluessig = 1\n";   // an unknown option whose name starts with such a byte is a line of its own, not a continuation
         if (r.chance(1, 8)) f += r.chance(1, 2) ? "\n" : "   \t \n";
         if (r.chance(1, 8)) f += "; " + opt + " = commented-out\n";
         if (r.chance(1, 12)) { static const char *bad[] = {"line without separator\n", "[unterminated section\n", "====\n", "message_format\n", "] stray\n"}; f += bad[r.below(5)]; if (f.find("[unterminated") != std::string::npos) f += "[snoopy]\n"; }
@@ -750,7 +760,9 @@ static Plan gen_c02(uint64_t seed, const std::string &tier) {
     p.extra.set("probes", probes);
     return p;
 }
+Verdict libc_static_state(const RunResult &r);
 static Verdict oracle_c02(const Plan &p, const RunResult &r) {
+    { Verdict ls = libc_static_state(r); if (ls.violated) return ls; }   // "corrupt the calling process" includes the libc state the caller was working with
     for (auto &cv : calls_of(p)) {
         const ExecObs *o = obs_of(r, cv.opi); if (!o) continue;
         if (o->real_calls < 1) return bad("exec-not-reached", "call #" + std::to_string(cv.opi) + " never handed control to the real exec");
